@@ -34,3 +34,7 @@ Definition corr_stream (x : stream * list N * Z) : bool :=
   let '(st, data, pos) := x in
   let '(d, st') := bytesio_read_all st in
   list_eqb N.eqb d data && Z.eqb (s_pos st') pos && list_eqb N.eqb (s_buf st') (s_buf st).
+
+(* case = (str() of the raw pypdf value as a reader of the harness prints it, what the implementation put into the result) *)
+Definition corr_strip (x : str * str) : bool :=
+  match strip_ids true (fst x) with Some r => str_eqb r (snd x) | None => false end.
